@@ -233,7 +233,7 @@ def run(ctx):
     else:
         lines = vlib.corpus_lines("C11") + [gen_fe(ctx.rng) for _ in range(ctx.n(300, 6000))]
         vlib.correspond(ctx, lines, oracle=fe_oracle, label="Foreach")
-        progs = [ProgGen(ctx.rng, f"{ctx.seed}x{i}").program() for i in range(ctx.n(30, 500))]
+        progs = [ProgGen(ctx.rng, f"{ctx.seed}x{i}").program() for i in range(ctx.n(30, 300))]
         cfgs = configs(ctx, ctx.rng)
     ok = True
     reported = 0
